@@ -131,4 +131,15 @@ CHECKS["C16"] = {
     "level_note": SYS_NOTE + "; the upstream after go-away may be registered or not until it disconnects (the proxy removes it on ErrGone)",
 }
 
+CHECKS["C08"] = {
+    "subs": [
+        {"pkg": "sys", "test": "TestC08Transparency", "quick": 80, "thorough": 4000, "shards_quick": 8, "shards_thorough": 12, "shrinktime": "10s", "timeout_quick": 900, "timeout_thorough": 7200},
+        {"pkg": "sys", "test": "TestC08Failures", "quick": 64, "thorough": 2000, "shards_quick": 8, "shards_thorough": 12, "shrinktime": "10s", "timeout_quick": 900, "timeout_thorough": 7200},
+    ],
+    "engine": "SYS",
+    "level_text": "Grammar-generated requests and response shapes through real clusters (local and forwarded, SDK and agent upstreams) compared field by field with what the upstream recorded and what the client received; a generated failure matrix checks the 400/502/504 mapping, the timeout window and that upgrades survive the timeout. Exploration only.",
+    "technique": "grammar-based PBT (rapid) with a record-and-compare (round-trip) oracle on real servers",
+    "level_note": SYS_NOTE + "; request targets are generated percent-encoded without dot segments; hop-by-hop and X-Forwarded-For additions are not differences",
+}
+
 NOT_APPLICABLE = {}
